@@ -202,6 +202,27 @@ def createdChange (base now : Nat) (m : Method) : Change :=
   { did := base + m.idx, method := m, row := base + m.idx, typ := .created, tx := base, ts := now,
     c := { vms := [base + m.idx], svcs := [] } }
 
+/-! #### the subject name with v1 naming (`NutsLegacyNamingOption`)
+
+`Create`'s first loop (`range r.MethodManagers`, random order) generates a document per method and — with the option —
+replaces the subject name by the did:nuts DID when it visits did:nuts. The DID rows are stored by a SECOND loop, after the
+first has finished, with `orm.DID{ID: …, Subject: subject}`: every row gets the FINAL name. -/
+
+/-- the name after the first loop: the provisional one, or (v1 naming, did:nuts enabled) the did:nuts DID -/
+def finalSubject (legacy : Bool) (order : List Method) (provisional nutsDid : String) : String :=
+  if legacy && order.contains .nuts then nutsDid else provisional
+
+/-- as coded: the stored row of every method carries the final name -/
+def storedSubject (legacy : Bool) (order : List Method) (provisional nutsDid : String) (_m : Method) : String :=
+  finalSubject legacy order provisional nutsDid
+
+/-- the variant that links a DID to the name known WHEN ITS METHOD IS VISITED (not what the code does) -/
+def subjectAtVisit (legacy : Bool) (provisional nutsDid : String) : List Method → Method → String
+  | [], _ => provisional
+  | x :: rest, m =>
+    let now := if legacy && x == .nuts then nutsDid else provisional
+    if x == m then now else subjectAtVisit legacy now nutsDid rest m
+
 /-- `NewDIDManager(tx).FindBySubject(subject)` finds something -/
 def subjectExists (w : World) (s : String) : Bool := w.dids.any (fun r => r.subject = s)
 
